@@ -94,6 +94,15 @@ impl LibraryRenderer {
     fn outdent(&mut self) {
         self.indents -= 1;
     }
+
+    /// The body of a loop or of an ELSIF branch must hold at least an empty
+    /// statement for the text to be accepted by the parser again.
+    fn write_empty_statement_when_empty(&mut self, body: &[dsl::textual::StmtKind]) {
+        if body.is_empty() {
+            self.write_ws(";");
+            self.newline();
+        }
+    }
 }
 
 impl Visitor<Diagnostic> for LibraryRenderer {
@@ -1296,6 +1305,7 @@ impl Visitor<Diagnostic> for LibraryRenderer {
         for item in node.body.iter() {
             self.visit_stmt_kind(item)?;
         }
+        self.write_empty_statement_when_empty(&node.body);
         self.outdent();
 
         self.write_ws("UNTIL");
@@ -1354,6 +1364,7 @@ impl Visitor<Diagnostic> for LibraryRenderer {
         for item in node.body.iter() {
             self.visit_stmt_kind(item)?;
         }
+        self.write_empty_statement_when_empty(&node.body);
         self.outdent();
 
         Ok(())
@@ -1442,6 +1453,7 @@ impl Visitor<Diagnostic> for LibraryRenderer {
         for item in node.body.iter() {
             self.visit_stmt_kind(item)?;
         }
+        self.write_empty_statement_when_empty(&node.body);
         self.outdent();
 
         self.write_ws("END_FOR");
@@ -1461,6 +1473,7 @@ impl Visitor<Diagnostic> for LibraryRenderer {
         for item in node.body.iter() {
             self.visit_stmt_kind(item)?;
         }
+        self.write_empty_statement_when_empty(&node.body);
         self.outdent();
 
         self.write_ws("END_WHILE");
